@@ -490,6 +490,9 @@ func (c *Compiler) isFeatureValid(m parse.Node, n parse.Node, featTree map[strin
 		return false
 	}
 	featTree[featName] = true
+	// featTree holds the features on the current chain of references only:
+	// reaching a feature again along another chain is not a cycle.
+	defer delete(featTree, featName)
 
 	// Verify each feature that this feature references via an if-feature
 	for _, ifFeat := range n.ChildrenByType(parse.NodeIfFeature) {
